@@ -20,6 +20,7 @@ struct RFX : RFKickMap { using RFKickMap::_calcKick; };
 
 extern "C" {
 __attribute__((noinline)) void e_km_swap_apply(KickMap* km, std::vector<meshaxis_t>* off) { km->swapOffset(*off); km->apply(); }
+__attribute__((noinline)) void* e_hinfo(SourceMap* m) { return m->_hinfo; }
 __attribute__((noinline)) void e_km_swap(KickMap* km, std::vector<meshaxis_t>* off) { km->swapOffset(*off); }
 __attribute__((noinline)) void e_apply(SourceMap* m) { m->apply(); }
 __attribute__((noinline)) void e_applyTo(SourceMap* m, PhaseSpace::Position* p) { m->applyTo(*p); }
